@@ -91,6 +91,54 @@ func raceSignature(report string) string {
 func (raceEngine) Generate(rng *rand.Rand, prop string, thorough bool) *Plan {
 	p := chaosEngine{}.Generate(rng, prop, thorough)
 	p.Engine = "race"
+	if rng.Intn(2) == 0 {
+		// a growing database: 60-200 keys put for the first time while other goroutines read, so that the
+		// index splits (level, split pointer, bucket count change) and the log rolls over under the readers
+		cfg := p.Cfg
+		cfg.NKeys = 60 + rng.Intn(140)
+		cfg.Family = []int{int(KFTiny), int(KFMixed), int(KFLowBits)}[rng.Intn(3)]
+		if cfg.Family == int(KFTiny) && cfg.NKeys > 70 {
+			cfg.NKeys = 70
+		}
+		keys := GenKeys(rng, KeyFamily(cfg.Family), cfg.NKeys, cfg.HashSeed)
+		cfg.NKeys = len(keys)
+		p.Cfg = cfg
+		p.SetKeys(keys)
+		p.Epochs = nil
+		nw := 1 + rng.Intn(2)
+		nr := 2 + rng.Intn(3)
+		id := 0
+		p.Tasks = nil
+		for w := 0; w < nw; w++ {
+			var ops []Op
+			for _, k := range rng.Perm(cfg.NKeys) {
+				if k%nw != w {
+					continue
+				}
+				id++
+				ops = append(ops, Op{K: "put", Key: k, ID: id, Size: concSizes[rng.Intn(len(concSizes))]})
+				if rng.Intn(8) == 0 {
+					ops = append(ops, Op{K: "del", Key: k})
+				}
+				if rng.Intn(30) == 0 {
+					ops = append(ops, Op{K: []string{"compact", "sync", "count"}[rng.Intn(3)]})
+				}
+			}
+			p.Tasks = append(p.Tasks, ops)
+		}
+		all := make([]int, cfg.NKeys)
+		for i := range all {
+			all[i] = i
+		}
+		for r := 0; r < nr; r++ {
+			w := map[string]int{"get": 40, "has": 15, "geta": 10, "count": 5, "items": 2, "filesize": 1, "metrics": 1}
+			ops := genClient(rng, cfg, 150+rng.Intn(200), w, all, &id, concSizes)
+			if r == 0 && rng.Intn(2) == 0 {
+				ops = append(ops, Op{K: "close"})
+			}
+			p.Tasks = append(p.Tasks, ops)
+		}
+	}
 	p.Cfg.RealFS = []string{"mem", "os", "osmmap"}[rng.Intn(3)]
 	p.Cfg.Alias, p.Cfg.Poison, p.Cfg.ShortReads, p.Cfg.PermuteDir, p.Cfg.FSYields = false, false, false, false, false
 	// more operations per task: real threads need time to overlap
